@@ -951,7 +951,8 @@ func checkU7(c *Ctx, p *Prog, gen *ssa.Function) {
 	for _, s := range p.resultSyms(adder, 0) {
 		if ms, ok := s.V.(*ssa.MakeSlice); ok {
 			l := deepStrip(p.Sym(ms.Len))
-			if l.Op == "bin" && l.Name == "+" && strings.Contains(l.String(), "len(") && strings.Contains(l.String(), "1") {
+			lb, lk := splitConst(l)
+			if lb.Op == "call" && lb.Name == "len" && len(lb.Args) == 1 && lb.Args[0].V == ssa.Value(adder.Params[0]) && lk == 1 {
 				fresh = true
 			} else {
 				ap = append(ap, "the new combination has length "+l.String()+", not len(combination)+1")
@@ -971,8 +972,11 @@ func checkU7(c *Ctx, p *Prog, gen *ssa.Function) {
 			if st, ok := in.(*ssa.Store); ok {
 				if ia, isIA := st.Addr.(*ssa.IndexAddr); isIA && st.Val == ssa.Value(adder.Params[1]) {
 					idx := deepStrip(p.Sym(ia.Index))
-					if idx.Op == "bin" && idx.Name == "-" && strings.Contains(idx.String(), "len(") {
-						lastSet = true
+					// the last position of the new slice: len(created) - 1
+					if ib, ik := splitConst(idx); ib.Op == "call" && ib.Name == "len" && len(ib.Args) == 1 && ik == -1 {
+						if _, isMS := stripRefConv(ib.Args[0].V).(*ssa.MakeSlice); isMS || ib.Args[0].V == nil {
+							lastSet = true
+						}
 					}
 					// the same position counted from the source: created[len(combination)]
 					if idx.Op == "call" && idx.Name == "len" && len(idx.Args) == 1 && idx.Args[0].V == ssa.Value(adder.Params[0]) {
